@@ -23,7 +23,7 @@ TRUSTED = ["hand-written Gallina model coq/Model/Ecdsa.v of src/ecdsa/{sign,veri
            "GROUP HYPOTHESES (premise `secp256k1_group` of the verification / ECDH / recovery theorems, Proofs/EcdsaSecp.v): on the set "
            "of valid points (on-curve, coordinates in [0,p)) the formulas padd/pneg/smul of Prim/Secp256k1.v are closed, padd is "
            "associative and commutative with identity None and inverse pneg, smul is the Z-action (smul (a+b) P = padd (smul a P) "
-           "(smul b P), smul (a*b) P = smul a (smul b P), smul 1 P = P), smul n G = None, every 0<a<n is coprime to n (n prime), "
+           "(smul b P), smul (a*b) P = smul a (smul b P), smul 1 P = P), smul n G = None (that n is prime - every 0<a<n is invertible - is no longer a hypothesis: Proofs/SecpPrimes.v proves it from a Pratt certificate checked inside Coq), "
            "and for recovery: lift_x (xcoord P) (yodd P) = Some P and yodd (pneg P) = negb (yodd P) for valid P <> None, "
            "smul a G = None -> a mod n = 0",
            "execution runs the BigZ instance (Uint63 primitives); Proofs/Secp256k1Refine.v proves it equal to the Z instance"]
